@@ -29,8 +29,8 @@ PROP = dict(
                  "required to be clean where the model says safe",
                  "'the process performs no invalid access' is inferred through the validated ghost model and Rust's type "
                  "system for the safe code; not a theorem",
-                 "caller contract for chewing_free: a released pointer is not passed again (OWNED entries are never removed: "
-                 "a second free would be a double free), pointers are live results, NULL or foreign",
+                 "allocator contract: a fresh block is never placed at the address of a live result; chewing_free itself has "
+                 "no precondition in the model (after fix aeeff30 any pointer may be passed any number of times)",
                  "background dictionary reloads (the schedules of the quantifier) are covered only as far as the reload "
                  "inside a learning key event; the snapshot thread works on a clone and is not modelled",
                  "known finding F22 (user-phrase iterator borrows the dictionary): refutation + partial theorem; known "
@@ -46,18 +46,18 @@ MANIFEST = dict(
          "evaluation of regenerated tables. (2) Ghost ownership model of the context (OWNED registry, three collected "
          "iterators, the borrowing user-phrase iterator with Peekable's cache, dictionary generation): collected iterators "
          "can never be invalidated (all states, all ops); undefined behaviour arises only at userphrase has_next/get or at "
-         "chewing_free; a history with no possibly-mutating call between enumerate and a later has_next/get and a "
-         "contract-respecting use of chewing_free is defined at every step and keeps 'every live result is registered with "
-         "its true kind' (so chewing_free releases it); F22 refutation with the concrete history. NOT a theorem: that the "
+         "chewing_free; a history with no possibly-mutating call between enumerate and a later has_next/get is defined "
+         "at every step and keeps 'registry = live results with their true kinds' (so chewing_free releases every live result "
+         "and ignores every other pointer - NULL, foreign, interior, released before: free_total); F22 refutation with the concrete history. NOT a theorem: that the "
          "real process performs no invalid access — inferred from the model, validated by (a) translator: buffer sizes, "
          "copy_cstr / chewing_free shapes, inventory of 126 exported functions, 64 unsafe blocks, iterator sites, "
          "classification of functions that can reach dictionary mutation; (b) correspondence: every returned buffer "
          "dumped to capacity and recomputed by the model, protocol results and registry replayed by the model per call, "
          "valgrind memcheck verdicts compared with the model's ub flag. Fixed: F35a (no terminator / cut character), F23 "
-         "(free with wrong layout). Known: F22, F35 (overlong pre-edit truncated).",
+         "(free with wrong layout), F23b (stale registry entries: free of a non-owned block, found by the harness). Known: F22, F35 (overlong pre-edit truncated).",
     note="Trusted: Lean kernel (axioms propext, Classical.choice, Quot.sound only), tools/extractors/capi.py with its reviewed "
          "method lists, the harness, valgrind, the compiled model driver. Schedules (background reload) are only covered at "
-         "the granularity of one key event; double free by the caller is outside the quantifier.",
+         "the granularity of one key event.",
     technique="Lean 4 proof (induction over texts / histories, invariants, omega; kernel-evaluated generated tables) over a "
               "byte-level string model and a ghost ownership model; translator + byte-for-byte and per-call correspondence; "
               "valgrind memcheck and a layout-checking allocator validate the ghost ub flag",
